@@ -260,4 +260,22 @@ def gen_flat_fractional(tier, rng):
         c = mk(xs, ts, st, ft, rng.choice([F(1, 64), F(1, 2), F(2)]), dom=True)
         c["fractional"] = True
         cases.append(c)
+    # DECIMAL sub-second steps (10 Hz, 5 Hz, 0.4 s: not binary fractions) with durations that are whole multiples of the
+    # step, kept where true division followed by truncation gives the exact count in float arithmetic (checked here):
+    # there the property fixes k, and another float recipe (floor division: 1.0 // 0.1 = 9) is a deviation
+    extra = 0
+    while extra < (40 if tier == "quick" else 400):
+        step_ns = rng.choice([NS // 10, NS // 5, 2 * NS // 5])
+        D = F(step_ns, NS)
+        ks, kf = rng.randint(1, 10), rng.randint(1, 12)
+        st, ft = ks * D, kf * D
+        if int(float(st) / (step_ns / 1e9)) != ks or int(float(ft) / (step_ns / 1e9)) != kf:
+            continue
+        n = rng.randint(max(ks, kf) + 1, max(ks, kf) + 4)
+        xs = plateau_series(rng, n, rng.choice([ks, kf]))
+        ts = [T0 * NS + i * step_ns for i in range(n)]
+        c = mk(xs, ts, st, ft, rng.choice([F(1, 64), F(1, 2), F(2)]), dom=True)
+        c["fractional"] = True
+        cases.append(c)
+        extra += 1
     return cases
